@@ -806,7 +806,8 @@ class _Raise:
 # --------------------------------------------------------------------------
 
 
-def is_zero(e: sp.Expr, seed: int = 0, budget_s: float = 20.0, allow_numeric: bool = True) -> tuple[Optional[bool], str]:
+def is_zero(e: sp.Expr, seed: int = 0, budget_s: float = 20.0, allow_numeric: bool = True,
+            ranges: Optional[dict] = None) -> tuple[Optional[bool], str]:
     """Decide e == 0.  Returns (verdict, how).  verdict None = undecided."""
     import random
     import signal
@@ -873,7 +874,11 @@ def is_zero(e: sp.Expr, seed: int = 0, budget_s: float = 20.0, allow_numeric: bo
     for _ in range(8):
         subs = {}
         for s in syms:
-            if s.is_positive:
+            if ranges and s in ranges:
+                lo, hi = ranges[s]
+                k = rnd.randint(1, 96)
+                subs[s] = sp.Rational(lo) + (sp.Rational(hi) - sp.Rational(lo)) * sp.Rational(k, 97)
+            elif s.is_positive:
                 subs[s] = sp.Rational(rnd.randint(11, 97), rnd.randint(11, 97))
             else:
                 subs[s] = sp.Rational(rnd.randint(11, 97), rnd.randint(11, 97)) * rnd.choice([1, 1, -1])
